@@ -21,10 +21,32 @@ from rig import common
 
 DRV = os.path.join(common.VERIF, "harness", "x01_drv.c")
 LDWRAP = "-Wl,--wrap=pthread_mutex_lock,--wrap=pthread_mutex_unlock,--wrap=time"
+# MaxItems of MC_DataCache_sim.cfg: the driver's alloc_data_fn fails beyond it, like the model's
+DC_SIM_MAXITEMS = int(re.search(r"MaxItems = (\d+)", open(os.path.join(common.VERIF, "specs", "grow", "MC_DataCache_sim.cfg")).read()).group(1))
 KEY_TOTAL = "hbucket:hbskt-count:lost-update-under-concurrent-add-remove"
 KEY_BIG = "hbucket_create:heap-buffer-overflow-WRITE:hashsize>=2^28-size-computed-in-32-bits"
 KEY_ENUMRM = "data_cache_enum:heap-use-after-free-READ:callback-frees-visited-item"
 KEY_ADDNULL = "data_cache_item_add:null-cache-dereferenced"
+
+_SUM = re.compile(r"SUMMARY: \w+Sanitizer: (\S+) (\S+?)(?::\d+)* in (\S+)")
+def crash_key(out, rc, fallback=None):
+    """(kind, function, file, detail) of a sanitizer / fault report; ASan summaries of inlined header code carry no line"""
+    if "LeakSanitizer: detected memory leaks" in out:
+        fm = re.search(r"#\d+ 0x[0-9a-f]+ in (\S+) \S*/(?:src|include)/utils/(\S+?):\d+", out)
+        return ("memory-leak", fm.group(1) if fm else "", fm.group(2) if fm else "", "LeakSanitizer: " + (re.search(r"SUMMARY: .*", out) or [""])[0])
+    m = _SUM.search(out)
+    if m:
+        acc = "-WRITE" if re.search(r"^WRITE of size", out, re.M) else ("-READ" if re.search(r"^READ of size", out, re.M) else "")
+        return (m.group(1) + acc, m.group(3), os.path.basename(m.group(2)), m.group(0))
+    m = re.search(r"^(\S+?):(\d+):\d+: runtime error: (.*)$", out, re.M)
+    if m:
+        fm = re.search(r"#0 0x[0-9a-f]+ in (\S+)", out)
+        return ("ubsan", fm.group(1) if fm else "", os.path.basename(m.group(1)), m.group(0))
+    m = re.search(r"FAULT sig=(\d+)( blocked-on-zone-mutex)?", out)
+    if m:
+        return ("zone-mutex-still-held" if m.group(2) else "fault-sig" + m.group(1), "", "", out[m.start():m.start() + 300].split("\n")[0])
+    if fallback: return fallback
+    return ("timeout", "", "", "driver timeout") if rc == 124 else ("exit-%s" % rc, "", "", out[-400:])
 
 class Rig:
     def __init__(self, ctx):
@@ -36,12 +58,14 @@ class Rig:
                     "UBSAN_OPTIONS": "print_stacktrace=1:halt_on_error=1"}
         self.n = 0
 
-    def drive(self, lines, timeout=300):
-        rc, out = common.sh([self.exe], stdin=("\n".join(lines) + "\n").encode(), timeout=timeout, env=self.env)
-        evs = [l for l in out.splitlines() if l.startswith('{"op"')]
+    def drive(self, lines, timeout=300, leaks=False):
+        env = dict(self.env)
+        if leaks: env["ASAN_OPTIONS"] = env["ASAN_OPTIONS"].replace("detect_leaks=0", "detect_leaks=1")
+        rc, out = common.sh([self.exe], stdin=("\n".join(lines) + "\n").encode(), timeout=timeout, env=env)
+        evs = [l for l in out.splitlines() if l.startswith('{"op"') and not l.startswith('{"op":"skipped"')]   # skipped: no object
         crash = None
         if rc != 0:
-            crash = common.san_key(out) or (("timeout", "", "", "driver timeout") if rc == 124 else ("exit-%s" % rc, "", "", out[-400:]))
+            crash = crash_key(out, rc)
         return evs, crash, out
 
     def validate(self, module, evs, timeout=600):
@@ -88,10 +112,10 @@ class Rig:
                  res["r"].out[-1200:]), replay)
         return False
 
-    def history(self, module, cmds, what, keyprefix, timeout=600):
+    def history(self, module, cmds, what, keyprefix, timeout=600, leaks=False):
         """run the driver on cmds, validate its log; returns (res, evs) or (None, evs) when the driver died"""
         ctx = self.ctx
-        evs, crash, out = self.drive(cmds, timeout=timeout)
+        evs, crash, out = self.drive(cmds, timeout=timeout, leaks=leaks)
         replay = {"what": what, "commands": cmds}
         if crash:
             ctx.fail("%s:%s:%s" % (keyprefix, crash[0], crash[1]), "%s: driver died: %s\n%s" % (what, crash[3], out[-2500:]), replay)
@@ -153,7 +177,7 @@ def cmd_of(e):
     if op == "zenum": return "zenum %d %d %d %d %s" % (e["t"], e["z"], e["stop"], len(e["rm"]), " ".join(map(str, sorted(e["rm"]))))
     if op == "enum": return "enum %d %d %d %s" % (e["t"], e["stop"], len(e["rm"]), " ".join(map(str, sorted(e["rm"]))))
     if op == "destroy": return "destroy %d" % e["t"]
-    if op == "dnew": return "dnew %d %d %d" % (e["iv"], e["nb"], e["now"])
+    if op == "dnew": return "dnew %d %d %d %d" % (e["iv"], e["nb"], e["now"], DC_SIM_MAXITEMS)
     if op == "dadd": return "dadd %d %d" % (e["k"], e["fail"])
     if op in ("dget", "dget0"): return "%s %d" % (op, e["k"])
     if op == "dfree": return "dfree %d" % e["i"]
@@ -204,11 +228,12 @@ def replay_behaviours(rig, module, cfg, first_op, nbeh, depth, label, keyprefix)
         if i == 0 or meta[i - 1][0] != bid: start = i
         if bid == dead: continue
         if isinstance(a, dict):
-            c = a["crash"]; dead = bid
+            c = crash_key(a["raw"], 1, a["crash"]); dead = bid
             ctx.fail("%s:%s:%s" % (keyprefix, c[0], c[1]), "%s: %s\n%s" % (label, c[3], a["raw"]), {"commands": lines[start:i + 1]})
             continue
         try: act = json.loads(a)
         except Exception: raise common.Infra("driver answered garbage to '%s': %s" % (ln, a[:300]))
+        if act.get("op") == "skipped": continue
         nsteps += 1
         e = s["ev"]; ops[e["op"]] += 1
         if e["op"] == "get": feats["get-found" if e["rc"] == 0 else "get-not-found"] += 1
@@ -264,20 +289,22 @@ def real_histories(rig):
             if res["accepted"]:
                 need(what, c, ["get", "add", "rm", "zlock", "zunlock", "elock", "eunlock", "zenum", "enum", "destroy"])
                 if mt and nt > 1 and nz > 1 and not held2: raise common.Infra("vacuous: never two lock holders in " + what)
-    # free running histories (no rig lock), then the add/remove storm
-    fplan = [(4, [0, 0, 1, 1, 2, 2, 3, 3], 4, 20000), (2, [0, 0, 1, 1, 2, 2], 3, 15000)]
-    if not q: fplan = [(4, [0, 0, 1, 1, 2, 2, 3, 3], 4, 150000), (2, [0, 0, 1, 1, 2, 2], 3, 100000), (1, [0, 0, 1, 1], 4, 60000),
-                       (8, [0, 0, 1, 1, 2, 2, 3, 3, 4, 4, 5, 5], 4, 150000)]
-    for (nz, keys, nt, n) in fplan:
+    # free running histories (no rig lock), then the add/remove storm.  (hashsize, shared keys, threads, units, private entries)
+    fplan = [(4, [0, 0, 1, 1, 2, 2, 3, 3], 4, 20000, 6), (2, [0, 0, 1, 1, 2, 2], 3, 15000, 4)]
+    if not q: fplan = [(4, [0, 0, 1, 1, 2, 2, 3, 3], 4, 150000, 6), (2, [0, 0, 1, 1, 2, 2], 3, 100000, 4), (1, [0, 0, 1, 1], 4, 60000, 4),
+                       (8, [0, 0, 1, 1, 2, 2, 3, 3, 4, 4, 5, 5], 4, 150000, 8), (2, [0, 0, 2, 2], 2, 150000, 2)]
+    for (nz, shared, nt, n, npriv) in fplan:
         seed = rnd.randrange(1, 1 << 30)
-        what = "free running history hashsize=%d keys=%s threads=%d units=%d seed=%d" % (nz, keys, nt, n, seed)
+        keys = shared + [100 + i for i in range(npriv)]
+        what = "free running history hashsize=%d shared keys=%s private entries=%d threads=%d units=%d seed=%d" % (nz, shared, npriv, nt, n, seed)
         res, evs = rig.history("Trace_Hb", ["new 1 %d %d %s" % (nz, len(keys), " ".join(map(str, keys))),
-                                            "free %d %d %d" % (seed, n, nt)], what, "hbucket", timeout=900)
+                                            "free %d %d %d %d" % (seed, n, nt, len(shared))], what, "hbucket", timeout=900)
         if res is not None:
             c = collections.Counter(re.match(r'\{"op":"(\w+)"', e).group(1) for e in evs)
+            c["add(0)-of-private-entry"] = sum(1 for e in evs if e.startswith('{"op":"add"') and '"fl":0' in e)
             ctx.cov.setdefault("free_running_histories", []).append({"hashsize": nz, "threads": nt, "lines": len(evs),
                 "accepted": res["accepted"], "classes": sorted(res["seen"]), "lines_per_function": dict(c), "tlc_wall_s": round(res["r"].wall, 1)})
-            if res["accepted"]: need(what, c, ["get", "add", "rm", "zenum", "zunlock", "quiesce"])
+            if res["accepted"]: need(what, c, ["get", "add", "rm", "zenum", "zunlock", "quiesce", "add(0)-of-private-entry"])
     for (nt, iters) in ([(4, 100000)] if q else [(4, 400000), (2, 400000)]):
         what = "add/remove storm: %d threads, each %d x (add, remove) of a private entry in a private zone" % (nt, iters)
         res, evs = rig.history("Trace_Hb", ["new 1 4 4 0 1 2 3", "tight %d %d" % (nt, iters)], what, "hbucket")
@@ -291,7 +318,7 @@ def real_histories(rig):
     for (nb, nk, n) in dplan:
         seed = rnd.randrange(1, 1 << 30)
         what = "data cache history buckets=%d keys=%d calls=%d seed=%d" % (nb, nk, n, seed)
-        res, evs = rig.history("Trace_DataCache", ["dnew 1 %d 1000" % nb, "drand %d %d %d" % (seed, n, nk), "ddestroy"], what, "data_cache")
+        res, evs = rig.history("Trace_DataCache", ["dnew 1 %d 1000" % nb, "drand %d %d %d" % (seed, n, nk), "ddestroy"], what, "data_cache", leaks=True)
         if res is not None:
             c = collections.Counter()
             for e in evs:
@@ -337,12 +364,12 @@ def run(ctx):
     ctx.log("driver built from %s" % common.REPO)
     model_check(ctx)
     q = ctx.quick
-    ops, feats = replay_behaviours(rig, "MC_HbApi", "MC_HbApi_sim.cfg", "new", 300 if q else 4000, 40, "hash bucket behaviours (2 threads)", "hbucket")
+    ops, feats = replay_behaviours(rig, "MC_HbApi", "MC_HbApi_sim.cfg", "new", 120 if q else 1000, 40, "hash bucket behaviours (2 threads)", "hbucket")
     need("hash bucket replay", ops, ["get", "add", "rm", "zlock", "zunlock", "elock", "eunlock", "zenum", "enum", "destroy"])
     need("hash bucket replay", feats, ["get-found", "get-not-found", "enumeration-removing-visited-entries", "enumeration-stopped-by-callback",
                                        "two-threads-holding-zones", "recursive-lock-depth>1"])
-    replay_behaviours(rig, "MC_HbApi", "MC_HbApi_sim_st.cfg", "new", 150 if q else 2000, 40, "hash bucket behaviours (multi_thread = 0, 4 zones)", "hbucket")
-    ops, feats = replay_behaviours(rig, "MC_DataCache", "MC_DataCache_sim.cfg", "dnew", 300 if q else 4000, 50, "data cache behaviours", "data_cache")
+    replay_behaviours(rig, "MC_HbApi", "MC_HbApi_sim_st.cfg", "new", 50 if q else 300, 40, "hash bucket behaviours (multi_thread = 0, 4 zones)", "hbucket")
+    ops, feats = replay_behaviours(rig, "MC_DataCache", "MC_DataCache_sim.cfg", "dnew", 250 if q else 4000, 50, "data cache behaviours", "data_cache")
     need("data cache replay", ops, ["dnew", "dadd", "dget", "dget0", "dfree", "dset", "dclean", "dtick", "denum", "ddestroy"])
     need("data cache replay", feats, ["clean-removing-items", "clean-keeping-items", "add-alloc-failure", "add-ok", "destroy-with-items"])
     real_histories(rig)
